@@ -89,6 +89,43 @@ def judge_op(res, s, w, op, before, after, out, must_not_change, label, rejected
     return True
 
 
+class _Boom(RuntimeError):
+    pass
+
+
+def _boom(_):
+    raise _Boom("user callable failed")
+
+
+def raising_calls():
+    """(label, callable(db)) pairs that raise: user callables, invalid arguments, bad elements."""
+    from tinyflux import MeasurementQuery, Point, TagQuery
+
+    ALL = MeasurementQuery().noop()
+    Q = TagQuery().k.exists()
+    return [
+        ("update(tags=raising callable)", lambda db: db.update(ALL, tags=_boom)),
+        ("update(time=raising callable)", lambda db: db.update(ALL, time=_boom)),
+        ("update_all(fields=raising callable)", lambda db: db.update_all(fields=_boom)),
+        ("update(fields=callable returning invalid)", lambda db: db.update(ALL, fields=lambda f: {"x": "not a number"})),
+        ("update(measurement=callable returning invalid)", lambda db: db.update(ALL, measurement=lambda m: 5)),
+        ("handle.update(tags=raising callable)", lambda db: db.measurement("m0").update(ALL, tags=_boom)),
+        ("handle.update_all(tags=raising callable)", lambda db: db.measurement("m0").update_all(tags=_boom)),
+        ("update(nothing to do)", lambda db: db.update(Q)),
+        ("update_all(nothing to do)", lambda db: db.update_all()),
+        ("update(time=5)", lambda db: db.update(Q, time=5)),
+        ("update(unset_tags=5)", lambda db: db.update(Q, unset_tags=5)),
+        ("update(non-query)", lambda db: db.update(123, tags={"a": "b"})),
+        ("remove(non-query)", lambda db: db.remove("x")),
+        ("remove(raising test predicate)", lambda db: db.remove(TagQuery().k.test(_boom))),
+        ("drop_measurement(unhashable)", lambda db: db.drop_measurement(["m0"])),
+        ("insert_multiple([p, junk])", lambda db: db.insert_multiple([Point(), "junk"]) if False else db.insert_multiple(["junk"])),
+        ("insert(non-point)", lambda db: db.insert("junk")),
+        ("search(non-query)", lambda db: db.search(5)),
+        ("select(bad key)", lambda db: db.select("nonsense", Q)),
+    ]
+
+
 def run_history(res, cfg, scratch, rng):
     s = Session(cfg, scratch)
     w = Watch(s, scratch)
@@ -124,6 +161,26 @@ def run_history(res, cfg, scratch, rng):
                                 "file_before": before["file"], "file_after": after["file"], "temp_dir": after["tmp"], "db_dir": after["dbdir"]})
                 if not judge_op(res, s, w, op, before, after, out, noop, label):
                     return
+                # operations that raise must not leave anything behind either, nor change the file
+                if rng.random() < 0.35:
+                    for label_, call in rng.sample(raising_calls(), 3):
+                        before = w.snap()
+                        exc = None
+                        try:
+                            call(s.db)
+                        except Exception as e:  # noqa: BLE001
+                            exc = e
+                        after = w.snap()
+                        res.count("raising_calls")
+                        fake = type("O", (), {"exc": exc})()
+                        fop = {"op": "raising-call", "call": label_}
+                        if exc is None:
+                            res.count("raising_call_did_not_raise")
+                            continue
+                        res.count(f"raising.{label_}")
+                        res.count("listing_checks_after_raising_call")
+                        if not judge_op(res, s, w, fop, before, after, fake, False, "raised"):
+                            return
                 # reads
                 probes = query_probes(rng, s.model, prof)[:10] + getter_probes(rng, s.model, prof)[:12]
                 for p in probes:
@@ -215,6 +272,7 @@ def run(res, tier, seed, shard, nshards):
             run_modes(res, scratch, rng_for("C15", tier, seed, shard, "modes", h))
     for k in ("read", "noop-write", "rejected-write"):
         res.require(f"bytes_unchanged_checks.{k}")
+    res.require("listing_checks_after_raising_call")
     res.require("listing_checks")
     res.require("rejected_write_checks")
     for m in ("r", "r+", "a", "w+"):
